@@ -326,6 +326,20 @@ Section ScalarRT.
   Qed.
 End ScalarRT.
 
+(* what the structural proof needs from a scalar decoding layer [dsc]: every representable scalar
+   is printed as a token that [dsc] reads back to an equivalent value *)
+Definition scalar_rt_ok (fmt_float : bool -> N -> bytes)
+           (dsc : scalar_kind -> jvalue -> outcome (option pval)) : Prop :=
+  forall k v, rep_scalar k v ->
+    exists J, (exists txt, enc_scalar fmt_float k v = Ok txt /\ txt = print J) /\ wfb J = true /\
+              is_container J = false /\ J <> JNull /\
+              exists v', dsc k J = Ok (Some v') /\ scalar_equiv k v v'.
+
+Lemma scalar_rt_own fmt_float parse_float parse_time :
+  float_text_ok fmt_float -> float_roundtrip fmt_float parse_float -> time_parse_extends parse_time ->
+  scalar_rt_ok fmt_float (dec_scalar parse_float parse_time).
+Proof. intros H1 H2 H3 k v. apply scalar_roundtrip; assumption. Qed.
+
 (* ================================================================ structure *)
 (* ================================================================ message algebra *)
 Lemma msg_get_put_same n v m : msg_get n (msg_put n v m) = Some v.
@@ -493,8 +507,7 @@ Definition paths_diverge (p q : list N) : Prop :=
 Section RT.
   Variable fmt_float : bool -> N -> bytes.
   Variable any_inner : bytes -> bytes -> outcome bytes.
-  Variable parse_float : bool -> bytes -> option N.
-  Variable parse_time : bytes -> option (Z * Z).
+  Variable dsc : scalar_kind -> jvalue -> outcome (option pval).
   Variable env : env.
 
   (* the properties whose proto path addresses a field: an exposed oneof stands for its members *)
@@ -687,13 +700,13 @@ Section RT.
   Qed.
 
   (* ---------------------------------------------------------------- one step of each decoder function *)
-  Notation dec_scalar := (dec_scalar parse_float parse_time).
-  Notation dec_value := (dec_value parse_float parse_time env).
-  Notation dec_member := (dec_member parse_float parse_time env).
-  Notation dec_members := (dec_members parse_float parse_time env).
-  Notation dec_oneof := (dec_oneof parse_float parse_time env).
-  Notation dec_items := (dec_items parse_float parse_time env).
-  Notation dec_entries := (dec_entries parse_float parse_time env).
+  Notation dec_scalar := dsc.
+  Notation dec_value := (dec_value dsc env).
+  Notation dec_member := (dec_member dsc env).
+  Notation dec_members := (dec_members dsc env).
+  Notation dec_oneof := (dec_oneof dsc env).
+  Notation dec_items := (dec_items dsc env).
+  Notation dec_entries := (dec_entries dsc env).
 
   Lemma dec_member_S f d p j m seen :
     dec_member (S f) d p j m seen =
@@ -1370,9 +1383,7 @@ Section RT.
   Qed.
 
   (* ---------------------------------------------------------------- the induction over the encoder *)
-  Hypothesis Hfloat_ok : float_text_ok fmt_float.
-  Hypothesis Hfloat_rt : float_roundtrip fmt_float parse_float.
-  Hypothesis Htime : time_parse_extends parse_time.
+  Hypothesis Hscalar : scalar_rt_ok fmt_float dsc.
   Hypothesis Hinner : inner_ok any_inner.
 
   Notation enc_value := (enc_value fmt_float any_inner env).
@@ -1613,7 +1624,7 @@ Section RT.
     intros t v txt H Hrv. rewrite enc_value_S in H. destruct t as [k|r|r|r|it|it|pb].
     - (* scalar *)
       inversion Hrv as [? ? Hrs| | | | | |]; subst.
-      destruct (scalar_roundtrip fmt_float parse_float parse_time Hfloat_ok Hfloat_rt Htime k v Hrs)
+      destruct (Hscalar k v Hrs)
         as (J & (txt0 & He & ->) & Hw & Hnc & HJ & v' & Hds & Heq).
       rewrite He in H. injection H as <-.
       exists J. split; [reflexivity|]. split; [exact Hw|]. split; [exact HJ|].
@@ -1722,7 +1733,7 @@ Section RT.
     rep_root root m -> encode fmt_float any_inner env root m = Ok txt ->
     exists J, strict_parse txt = Some J /\
       (N.of_nat (jnest J) <= max_nesting ->
-       exists m', decode_tree parse_float parse_time env root J = Ok m' /\ equiv_root root m m').
+       exists m', decode_tree dsc env root J = Ok m' /\ equiv_root root m m').
   Proof.
     unfold rep_root, equiv_root, encode, encode_fuel, decode_tree, decode_tree_fuel. intros Hrep H.
     set (f := (4 * pval_depth (VMsg m) + 4)%nat) in *. destruct (T_all f) as (_ & TOb & TOn).
